@@ -15,19 +15,33 @@ Inductive eng_case := Eng (rules : list pexpr) (root : pexpr) (data : list N) (o
 Definition FUEL : nat := N.to_nat 3000.
 
 (* ---- rendering ---- *)
-Definition o_val (v : lval) : obs :=
+(* the bytes of the file from [p] to [r]: the lexeme of a literal node (whitespace trimmed by a
+   RightTrim included, since RightTrim moves the node's reader position) *)
+Definition lexeme (inp : input) (p r : N) : list N :=
+  firstn (N.to_nat (r - p)) (skipn (N.to_nat (p - i_offset inp)) (i_data inp)).
+(* values: a float64 and a time.Duration are rendered by their lexeme ("lex"), not by value: the
+   conversions strconv.ParseFloat / time.ParseDuration are oracles of the model ([i_cf], [i_cd]),
+   the harness input uses dummy converters *)
+Definition o_val (inp : input) (v : lval) (p r : N) : obs :=
   match v with
-  | VRune c => OT "r" [ON c] | VInt z => OT "i" [OZ z] | VFloat b => OT "f" [ON b] | VStr s => OT "s" [OS s]
-  | VBool b => OT "b" [OB b] | VNil => OT "n" [] | VDur z => OT "d" [OZ z]
+  | VRune c | VChar c => OT "r" [ON c] | VInt z => OT "i" [OZ z] | VStr s => OT "s" [OS s]
+  | VBool b => OT "b" [OB b] | VNil => OT "n" []
+  | VFloat _ | VDur _ => OT "lex" [OS (lexeme inp p r)]
   end.
 Definition tok_code (t : list N) : N :=
   if list_N_eqb t (seq_token SeqOf) then 0 else if list_N_eqb t (seq_token (SMany true)) then 1
   else if list_N_eqb t (seq_token (SSepBy true)) then 2 else 99.
 (* compact rendering: numbers are packed into OS lists (elaboration cost is per token) *)
+Section Render.
+Variable inp : input.
+(* a node whose value is an ASCII rune equal to its token (terminal.Rune) has the short form "r" *)
+Definition o_leaf (t : list N) (c p r : N) (v : lval) : obs :=
+  if list_N_eqb t [c] && (c <? 128) then OT "r" [OS [c; p; r]] else OT "T" [OS t; o_val inp v p r; OS [p; r]].
 Fixpoint o_node (n : node) : obs :=
   match n with
-  | NTerm t (VRune c) p r => if list_N_eqb t [c] then OT "r" [OS [c; p; r]] else OT "T" [OS t; o_val (VRune c); OS [p; r]]
-  | NTerm t v p r => OT "T" [OS t; o_val v; OS [p; r]]
+  | NTerm t (VRune c) p r => o_leaf t c p r (VRune c)
+  | NTerm t (VChar c) p r => o_leaf t c p r (VChar c)
+  | NTerm t v p r => OT "T" [OS t; o_val inp v p r; OS [p; r]]
   | NEmpty p => OT "E" [ON p]
   | NEnd p => OT "F" [ON p]
   | NNonTerm t _ cs p r => OT "N" [OS [tok_code t; p; r]; OL (map o_node cs)]
@@ -45,6 +59,7 @@ Definition o_fails (c : ctx) : obs := OL (map (fun f => OL [ON (fst f); o_cause 
 Definition o_ctx (c : ctx) : list obs := [obs_of_option o_err (cerr c); ON (calls c); o_bodies c; o_fails c].
 Definition o_ctx_top (c : ctx) : list obs := [obs_of_option o_err (cerr c); ON (calls c); o_fails c].
 Definition o_ctx_min (c : ctx) : list obs := [obs_of_option o_err (cerr c); ON (calls c)].
+End Render.
 
 Definition cause_msg (k : cause) : list N :=
   match k with
@@ -60,18 +75,18 @@ Definition eng_files (data : list N) (offset : N) : list file :=
   if offset <=? 1 then [new_file [102] data]
   else [new_file [120] (repeat 97 (N.to_nat (offset - 2))); new_file [102] data].
 Definition eng_input (data : list N) (offset : N) : input :=
-  {| i_data := normalize data; i_offset := if offset <=? 1 then 1 else offset |}.
+  mk_input (normalize data) (if offset <=? 1 then 1 else offset).
 
 Definition top_text (fs : fileset) (e : perr) : outcome (list N) :=
   bind (error_with_position fs (cause_msg (ecause e)) (epos e)) (fun t =>
     Ok (bytes "failed to parse the input: " ++ t)).
 
-Definition o_raw (o : outcome pres) : obs :=
-  obs_outcome (fun '(ns, _, err, c) => OT "Raw" ([OL (map o_node ns); obs_of_option o_err err] ++ o_ctx c)) o.
-Definition o_top (full : bool) (fs : fileset) (o : outcome top) : obs :=
+Definition o_raw (inp : input) (o : outcome pres) : obs :=
+  obs_outcome (fun '(ns, _, err, c) => OT "Raw" ([OL (map (o_node inp) ns); obs_of_option o_err err] ++ o_ctx c)) o.
+Definition o_top (inp : input) (full : bool) (fs : fileset) (o : outcome top) : obs :=
   obs_outcome (fun t =>
     match t with
-    | TopNode ns c => OT "Top" ([OT "Node" (map o_node ns)] ++ (if full then o_ctx_top c else o_ctx_min c))
+    | TopNode ns c => OT "Top" ([OT "Node" (map (o_node inp) ns)] ++ (if full then o_ctx_top c else o_ctx_min c))
     | TopErr e c => OT "Top" ([OT "Err" [obs_outcome OS (top_text fs e)]] ++ (if full then o_ctx_top c else o_ctx_min c))
     end) o.
 
@@ -96,11 +111,11 @@ Definition eng_expected (c : eng_case) : obs :=
   | Eng rules root data offset flags =>
     let inp := eng_input data offset in
     let fs := new_fileset (eng_files data offset) in
-    OT "Eng" ([o_raw (run inp rules FUEL root);
-               o_top true fs (parse_top inp rules FUEL (sentence root));
-               o_top false fs (parse_top inp rules FUEL root)] ++
+    OT "Eng" ([o_raw inp (run inp rules FUEL root);
+               o_top inp true fs (parse_top inp rules FUEL (sentence root));
+               o_top inp false fs (parse_top inp rules FUEL root)] ++
               (if N.testbit flags 0
-               then [o_raw (run inp (map strip_memo rules) FUEL (strip_memo root))]
+               then [o_raw inp (run inp (map strip_memo rules) FUEL (strip_memo root))]
                else []))
   end.
 
